@@ -58,6 +58,9 @@
 (*   DocutilsRaw   ... e.g. a raw directive, whose content the HTML        *)
 (*                 writer copies unescaped (visit_raw)                     *)
 (*                                                                         *)
+(*   DocutilsCopy  html4css1.visit_image copies the :alt: text of an image  *)
+(*                 that is shown as <object> into the HTML unescaped       *)
+(*                                                                         *)
 (* Payload classes: "linesep" (only matters where text is pasted into reST *)
 (* source: it holds a line separator other than "\n"), "plain" (every character can be written in XML) and    *)
 (* "xmlbreak" (holds a character that makes html2stan raise): every route  *)
@@ -80,9 +83,13 @@
 EXTENDS Integers, Sequences, FiniteSets, TLC, Json, IOUtils
 
 CONSTANTS Source,         \* "enum" | "file"
-          DeprecateQuoting \* what extensions/deprecate.py neutralises in a non-identifier replacement= string before
+          DeprecateQuoting, \* what extensions/deprecate.py neutralises in a non-identifier replacement= string before
                            \* it is pasted into reST source: "newline_only" (deprecate.py:147, replace('\n', ' ')) |
                            \* "all_separators" (every separator docutils splits lines at, and backticks)
+          ObjectAlt        \* what the HTML writer does with the alternative text of an image shown as <object>
+                           \* (.svg .swf .mp4 .webm .ogg): "raw" (docutils html4css1 visit_image:
+                           \* starttag(...) + node.get('alt', uri) + '</object>', not overridden by
+                           \* node2stan.HTMLTranslator) | "encoded" (the text goes through encode() first)
 
 DocFormats == {"epytext", "restructuredtext", "plaintext", "google", "numpy"}
 Docutils == DocFormats \ {"plaintext"}     \* formats rendered through docutils nodes
@@ -98,7 +105,8 @@ Routes ==
     xrefepy    |-> <<"ToNode", "DocutilsEncode", "ParseXml", "LinkLabel", "FlattenInner", "ParseXml", "FlattenToFile">>,
     doctest    |-> <<"ToNode", "Colorize", "FlattenInner", "ParseXml", "FlattenToFile">>,
     rstquote   |-> <<"RstInterpolate", "ToNode", "DocutilsEncode", "ParseXml", "FlattenToFile">>,
-    rstraw     |-> <<"RstInterpolate", "RstReparse", "DocutilsRaw", "ParseXml", "FlattenToFile">> ]
+    rstraw     |-> <<"RstInterpolate", "RstReparse", "DocutilsRaw", "ParseXml", "FlattenToFile">>,
+    objectalt  |-> <<"ToNode", "DocutilsCopy", "ParseXml", "FlattenToFile">> ]
 
 \* container before -> after, level change
 Stage ==
@@ -117,7 +125,8 @@ Stage ==
     Elide          |-> [from |-> {"lost"},         to |-> "none", d |-> 0],
     RstInterpolate |-> [from |-> {"src"},          to |-> "src",  d |-> 0],
     RstReparse     |-> [from |-> {"src"},          to |-> "node", d |-> 0],
-    DocutilsRaw    |-> [from |-> {"node"},         to |-> "html", d |-> 0] ]
+    DocutilsRaw    |-> [from |-> {"node"},         to |-> "html", d |-> 0],
+    DocutilsCopy   |-> [from |-> {"node"},         to |-> "html", d |-> 0] ]
 
 \* ----------------------------------------------------------------------------- sinks per source kind
 S(z, c, q) == [zone |-> z, ctx |-> c, quoted |-> q]
@@ -184,6 +193,10 @@ Feeds ==
   \*   (objectExtras, pages/__init__.py:326); with a line separator in the text, what follows is reST of its own
   \cup { Feed("deprecated", S("docstring", "text", FALSE), "rstquote") }
   \cup { Feed("deprecated", S("docstring", "text", FALSE), "rstraw") }
+  \* ".. image:: x.png / x.svg" with ":alt: text" in a reST docstring: alt attribute of <img>, content of <object>
+  \cup { Feed("imagealt", S("docstring", "attr", FALSE), "docutils") }
+  \cup { Feed("imagealt", S("docstring", "text", FALSE), "objectalt") }
+  \cup { Feed("imagealt", S("docstring", "text", FALSE), "docutils") }
   \* options                                                              (pages/__init__.py:182-186)
   \cup { Feed("projname", S(z, "text", FALSE), "stan") : z \in {"alldocs", "footer", "navbar"} }
   \cup { Feed("projurl", S(z, "url", FALSE), "stan") : z \in {"alldocs", "footer", "navbar"} }
@@ -196,12 +209,13 @@ Classes == {"plain", "xmlbreak", "linesep"}
 Active(f, cls) ==
   /\ (cls = "linesep") => f.kind = "deprecated"           \* elsewhere a line separator is an ordinary character
   /\ (f.route = "rstraw") => (cls = "linesep" /\ DeprecateQuoting = "newline_only")
+  /\ (f.kind = "imagealt" /\ f.ctx = "text") => ((f.route = "objectalt") <=> (ObjectAlt = "raw"))
 FirstParse(r) == CHOOSE i \in 1..Len(r) : r[i] = "ParseXml" /\ \A j \in 1..(i - 1) : r[j] # "ParseXml"
 HasParse(r) == \E i \in 1..Len(r) : r[i] = "ParseXml"
 Cut(r) == SubSeq(r, 1, FirstParse(r) - 1) \o <<"ParseXmlFails">>
 \* which fallback the caller of the failing html2stan has
 Elided(f) == f.zone \in SummaryZones \cup {"signature"}      \* format_summary_fallback, format_signature
-             \/ f.ctx = "url"                               \* the link is gone with the parsed docstring
+             \/ f.ctx \in {"url", "attr"}                    \* links, images are gone with the parsed docstring
              \/ f.kind = "deprecated"                       \* objectExtras: fallback is BROKEN (pages/__init__.py:334)
 RouteSeq(f, cls) ==
   LET r == Routes[f.route] IN
@@ -210,7 +224,8 @@ RouteSeq(f, cls) ==
   ELSE Cut(r) \o <<"Fallback", "FlattenToFile">>
 
 \* ----------------------------------------------------------------------------- the flow of one pair
-Apply(st, lv) == IF st = "ParseXml" THEN (IF lv > 0 THEN lv - 1 ELSE 0)
+\* parsing text as XML takes one level off: entity look-alikes of level-0 text are decoded (level -1), its < > are tags
+Apply(st, lv) == IF st = "ParseXml" THEN lv - 1
                  ELSE IF st = "Fallback" THEN 0
                  ELSE lv + Stage[st].d
 \* what the wrapped functions report: a raising html2stan is a ParseXml step with level out -3
@@ -275,10 +290,13 @@ NeverParsedRaw == ~parsedRaw
 NeverReparsedAsMarkup == ~reparsed
 \* known finding deprecate-replacement-reparsed-as-rst: the invariants hold everywhere else
 KF_DeprecateReplacementReparsed == Source = "enum" /\ pair.kind = "deprecated" /\ cls = "linesep" /\ pair.route = "rstraw"
-NeverParsedRawExceptKnown == NeverParsedRaw \/ KF_DeprecateReplacementReparsed
+\* known finding object-alt-copied-raw
+KF_ObjectAltCopiedRaw == Source = "enum" /\ pair.kind = "imagealt" /\ pair.route = "objectalt"
+NeverParsedRawExceptKnown == NeverParsedRaw \/ KF_DeprecateReplacementReparsed \/ KF_ObjectAltCopiedRaw
 NeverReparsedAsMarkupExceptKnown == NeverReparsedAsMarkup \/ KF_DeprecateReplacementReparsed
 \* a flow ends in the page at level 1 - or, after an XML error, nowhere; fallback routes included
 SinkLevelOne == (Source = "enum" /\ Done) => ((cont = "file" /\ level = 1) \/ (cont = "none" /\ cls = "xmlbreak"))
+SinkLevelOneExceptKnown == SinkLevelOne \/ KF_DeprecateReplacementReparsed \/ KF_ObjectAltCopiedRaw
 WellTyped == Source = "enum" => (pc <= Len(Route) => cont \in Stage[Route[pc]].from)
 SameAsWalk == (Source = "enum" /\ Done) => hist = [i \in DOMAIN Flow(pair, cls) |->
                   <<Flow(pair, cls)[i].stage, Flow(pair, cls)[i].lin, Flow(pair, cls)[i].lout>>]
